@@ -341,7 +341,7 @@ func newWorld(seed int64) *world {
 	w := apworld.NewWorld(seed)
 	kt := keytab.New()
 	if err := kt.Unmarshal(w.Keytab); err != nil {
-		engine.Fatal("model keytab: %v", err)
+		engine.FailValid("keytab.Unmarshal(model keytab)", err)
 	}
 	return &world{w, kt}
 }
